@@ -6,7 +6,7 @@ wt=/tmp/bn.$$
 git -C /repo worktree add -q --detach $wt HEAD || exit 3
 if ! git -C $wt apply "$patch" 2>/dev/null; then echo "patch does not apply"; git -C /repo worktree remove --force $wt; exit 3; fi
 for p in $props; do
-  (cd /verif && NAUNET_REPO=$wt /venv/bin/python -m sa.check $p --tier quick --no-evidence > /tmp/bn.$$.log 2>&1); rc=$?
+  (cd "$(dirname "$(readlink -f "$0")")/.." && NAUNET_REPO=$wt /venv/bin/python -m sa.check $p --tier quick --no-evidence > /tmp/bn.$$.log 2>&1); rc=$?
   if [ $rc -ne 0 ]; then echo "== $p exit=$rc"; grep -B3 "^VIOLATION\|^ANALYSIS-ERROR" /tmp/bn.$$.log | grep -v "^--\|^VIOLATION\|^KNOWN-FINDING\|^   R[0-9]*:" | cut -c1-${BN_W:-420}; fi
 done
 git -C /repo worktree remove --force $wt; rm -f /tmp/bn.$$.log
